@@ -1,11 +1,53 @@
 import FormulaeModel.Spec.C08
+import FormulaeModel.Proofs.PermStack
+import FormulaeModel.Proofs.PermUnused
+import FormulaeModel.Driver.C04
+set_option linter.unusedSimpArgs false
+set_option linter.unusedVariables false
 /-
-C08 — theorems about the evaluation model: irrelevant frame structure.
-(The row index does not exist in the model; index relabelling is exercised by the correspondence
-only.  Permutation equivariance of training is stated and its proved parts are listed below.)
+C08 — Row equivariance and independence from irrelevant frame structure.
+
+Theorems about the evaluation model (`Model/Design.lean`, `Model/Matrices.lean`), for every
+well-formed frame, every permutation `sigma` of its rows (`IsPerm sigma n`: `sigma` is a
+`List.Perm` of `0..n-1`; `Spec.C08.isPermutation` is proved equivalent) and **every** component
+the model covers — no fragment guard: `C/T/S` with explicit levels, ordered categoricals, `binary`,
+`center`, `offset`, `proportion`, responses `y[level]` are all inside.
+
+1. what training remembers does not depend on the row order
+   * `C08_dedup_perm`, `C08_sort_perm`, `C08_sortLevels_perm`   `sorted(set(xs))`
+   * `C08_levels_perm`, `C08_levels_box_perm`                   levels + contrast matrix of a factor
+   * `C08_mean_perm`, `C08_center_perm`                         the parameter of `center`
+   * `C08_binary_perm`                                          the default success value of `binary`
+   * `C08_box_perm`                                             the `levels=` check of `C/T/S`
+2. `C08_evalArg_perm`      lazy evaluation in training mode: value rows permuted, same state tree
+3. `C08_perm_comp`, `C08_perm_term`, `C08_perm_group`, `C08_perm_common`, `C08_perm_groups`,
+   `C08_perm_trained`, `C08_perm_stacks`, `C08_perm`
+                           training on the permuted frame = the permuted training matrix and the
+                           SAME remembered state, labels, kinds, groups, slices
+4. `C08_col_lookup_extra`, `C08_col_lookup_perm`, `C08_unused_evalArg`, `C08_unused_comp`,
+   `C08_unused_term`, `C08_unused_group`, `C08_unused`, `C08_unused_formulaVars`
+                           evaluation reads only the columns it names
+
+Guards that remain (all explicit): the frame is rectangular (`Frame.wellFormed`), the caller's
+namespace holds no data columns (`Env.namesScalar`: a column there would not be permuted), and a
+term has at least one component (`spec.comps ≠ []`; the Intercept is not a term of this model:
+the empty product has no rows to permute).
+
+NOT provable in the model — stays with the correspondence check (harness/c08.py):
+* the pandas row index: it does not exist in the model (a frame is a list of columns); index
+  relabelling / non-unique indexes are exercised on the real code only;
+* float rounding: `np.mean` / `np.sum` of permuted data agree only up to rounding in numpy, the
+  model's rationals are exact (the harness uses data whose sums are exact);
+* the parameters of `scale` / `bs` / `poly` (standard deviation, knots, orthogonal-polynomial
+  coefficients): modelled separately in `Model/Transforms.lean` (C14), compared with tolerance by
+  the harness, not part of `evalArg`;
+* column *reordering* of the data frame when two columns carry the same name (pandas returns a
+  frame, the model the first match): `C08_col_lookup_perm` assumes distinct names.
 -/
 namespace FormulaeModel.C08
-open FormulaeModel FormulaeModel.Design
+open FormulaeModel FormulaeModel.Design FormulaeModel.Spec.C06
+
+/-! ### 4a. column lookup -/
 
 /-- column lookup is by name: columns the formula does not mention, added anywhere, change no lookup -/
 theorem C08_col_lookup_extra (f extra : Frame) (name : String)
@@ -56,22 +98,16 @@ theorem C08_col_lookup_perm (f g : Frame) (name : String) (hp : f.Perm g)
   have y : b.name = name := by simpa using h2
   rw [x, y]
 
+/-! ### 1. what training remembers does not depend on the row order -/
+
 /-- the sum behind `np.mean` does not depend on the row order -/
 theorem sum_perm (xs ys : List Entry) (hp : xs.Perm ys) (init : Entry) :
     xs.foldl (fun acc x => entryOp (fun a b => some (a + b)) acc x) init
-      = ys.foldl (fun acc x => entryOp (fun a b => some (a + b)) acc x) init := by
-  apply List.Perm.foldl_eq' hp
-  intro x _ y _ z
-  cases x <;> cases y <;> cases z <;> simp [entryOp]
-  all_goals grind
+      = ys.foldl (fun acc x => entryOp (fun a b => some (a + b)) acc x) init :=
+  foldl_sum_perm xs ys hp init
 
 /-- fitted parameter of `center` (the mean) is invariant under row permutations -/
-theorem C08_mean_perm (xs ys : List Entry) (hp : xs.Perm ys) : mean xs = mean ys := by
-  unfold mean
-  have hl := hp.length_eq
-  have he : xs.isEmpty = ys.isEmpty := by
-    cases xs <;> cases ys <;> simp_all
-  rw [he, hl, sum_perm xs ys hp]
+theorem C08_mean_perm (xs ys : List Entry) (hp : xs.Perm ys) : mean xs = mean ys := mean_perm xs ys hp
 
 /-- hence `center` commutes with any reordering of the rows: same fitted mean, rows reordered -/
 theorem C08_center_perm (xs : List Entry) (sigma : List Nat) (isInt : Bool)
@@ -94,5 +130,442 @@ theorem C08_center_perm (xs : List Entry) (sigma : List Nat) (isInt : Bool)
     intro i _
     simp only [Function.comp_apply, List.getD_eq_getElem?_getD, List.getElem?_map]
     cases xs[i]? <;> simp
+
+/-- `set(xs)`: permuted data have the same members, each once -/
+theorem C08_dedup_perm {α : Type} [DecidableEq α] (xs ys : List α) (h : xs.Perm ys) :
+    (dedupL xs).Perm (dedupL ys) ∧ (dedupL xs).Nodup ∧ ∀ a, a ∈ dedupL xs ↔ a ∈ xs :=
+  ⟨dedupL_perm h, nodup_dedupL xs, mem_dedupL xs⟩
+
+/-- `sorted(xs)` (the model's insertion sort) returns the same list for permuted inputs whenever
+`lt` is a strict total order on the elements -/
+theorem C08_sort_perm {α : Type} (lt : α → α → Bool) (P : α → Prop) (ho : StrictTotalOn lt P)
+    (xs ys : List α) (hp : xs.Perm ys) (hl : ∀ a ∈ xs, P a) : sortBy lt xs = sortBy lt ys :=
+  sortBy_perm lt P ho hp hl
+
+/-- **`sorted(set(levels))` does not depend on the order of the data** — string levels, integer
+levels, and the TypeError for mixed levels alike -/
+theorem C08_sortLevels_perm (xs ys : List Level) (h : xs.Perm ys) : sortLevels xs = sortLevels ys :=
+  sortLevels_perm h
+
+/-- **levels and contrast matrix of a categorical column** (`eval_categoric`) are those of the
+unpermuted column (sorted unique values, or the declared order of an ordered categorical, which is
+data independent); the coded rows are permuted -/
+theorem C08_levels_perm (sigma : List Nat) (n : Nat) (hp : IsPerm sigma n) (name : String)
+    (xs : List (Option Level)) (hx : xs.length = n) (d : Option (Bool × List String)) (full : Bool)
+    (levels : List Level) (cm : ContrastMatrix) (m : Matrix)
+    (h : evalCategoric name xs d full = .ok (levels, cm, m)) :
+    evalCategoric name (pick sigma none xs) d full = .ok (levels, cm, selectRows m sigma) :=
+  evalCategoric_perm hp name xs hx d full levels cm m h
+
+/-- the same for a `CategoricalBox` (`C/T/S`: own contrast, explicit or derived levels) -/
+theorem C08_levels_box_perm (sigma : List Nat) (n : Nat) (hp : IsPerm sigma n) (b : Box)
+    (hx : b.data.length = n) (full : Bool) (levels : List Level) (cm : ContrastMatrix) (m : Matrix)
+    (h : evalBox b full = .ok (levels, cm, m)) :
+    evalBox { b with data := pick sigma none b.data } full = .ok (levels, cm, selectRows m sigma) :=
+  evalBox_perm hp b hx full levels cm m h
+
+/-- `CategoricalBox(data, contrast, levels)`: the check `set(levels) == set(data)` sees the same
+set; the box of the permuted data carries the same contrast and levels -/
+theorem C08_box_perm (sigma : List Nat) (n : Nat) (hp : IsPerm sigma n) (data : List (Option Level))
+    (hl : data.length = n) (decl : Option (Bool × List String)) (c : Option Contrast)
+    (l : Option (List Level)) (b : Box) (h : mkBox data decl c l = .ok b) :
+    mkBox (pick sigma none data) decl c l = .ok { b with data := pick sigma none b.data } :=
+  (mkBox_perm hp data hl decl c l b h).2
+
+/-- `binary(x, success)`: the default success value (the smallest value) and the check that the
+success value occurs are those of the unpermuted data -/
+theorem C08_binary_perm (sigma : List Nat) (n : Nat) (hp : IsPerm sigma n) (x s v : Val) (hx : x.len n)
+    (h : binaryFn x s = .ok v) : binaryFn (x.rows sigma) (s.rows sigma) = .ok (v.rows sigma) :=
+  (binaryFn_perm hp x s v hx h).2
+
+/-- the Boolean test the driver applies to the σ sent by the harness is `IsPerm` -/
+theorem C08_isPermutation_iff (sigma : List Nat) (n : Nat) :
+    Spec.C08.isPermutation sigma n = true ↔ sigma.Perm (List.range n) := isPerm_iff sigma n
+
+/-! ### 2. lazy evaluation in training mode -/
+
+/-- a well-formed training situation: rectangular frame, no data columns in the caller's namespace,
+`sigma` a permutation of the row indices -/
+structure Situation (env : Env) (sigma : List Nat) : Prop where
+  wf : env.frame.wellFormed = true
+  names : env.namesScalar = true
+  perm : sigma.Perm (List.range env.frame.nrows)
+
+/-- **Evaluating any expression for the first time on the row-permuted frame** gives the value
+with its rows permuted and the *same* remembered state tree (fitted parameters of every stateful
+transform in the call tree) — and the same keyword if the node is a keyword argument. -/
+theorem C08_evalArg_perm (env : Env) (sigma : List Nat) (S : Situation env sigma) (e : Expr)
+    (kw : Option String) (v : Val) (t : TS) (h : evalArg env e none = .ok (kw, v, t)) :
+    evalArg (env.rows sigma) e none = .ok (kw, v.rows sigma, t) :=
+  (evalArg_perm env S.wf S.names sigma S.perm e kw v t h).2
+
+/-! ### 3. components, terms, group-specific terms, the design -/
+
+/-- **One component** (`Variable` / `Call`, response or not, grouping factor or not, full or
+reduced): trained on the permuted frame it remembers exactly the same state — levels, contrast
+matrix, transform state, kind, offset / proportion constants, reference — has the same labels, and
+its value is the training value with rows permuted. -/
+theorem C08_perm_comp (env : Env) (sigma : List Nat) (S : Situation env sigma) (name : String) (e : Expr)
+    (forced isResponse full : Bool) (out : CompOut)
+    (h : trainComp env name e forced isResponse full = .ok out) :
+    ∃ out', trainComp (env.rows sigma) name e forced isResponse full = .ok out' ∧
+      out'.value = selectRows out.value sigma ∧ out'.labels = out.labels ∧
+      out'.st.levels = out.st.levels ∧ out'.st.contrast = out.st.contrast ∧
+      out'.st.tstate = out.st.tstate ∧ out'.st.kind = out.st.kind ∧ out'.st = out.st :=
+  ⟨_, (trainComp_perm env S.wf S.names sigma S.perm name e forced isResponse full out h).1,
+    rfl, rfl, rfl, rfl, rfl, rfl, rfl⟩
+
+/-- **One term**: same component states and kind, same labels, data rows permuted
+(`TermOut.perm o sigma = ⟨o.st, selectRows o.data sigma, o.labels⟩`). -/
+theorem C08_perm_term (env : Env) (sigma : List Nat) (S : Situation env sigma) (table : List (String × Expr))
+    (spec : TermSpec) (forced isResponse : Bool) (out : TermOut) (hne : spec.comps ≠ [])
+    (h : trainTerm env table spec forced isResponse = .ok out) :
+    trainTerm (env.rows sigma) table spec forced isResponse =
+      .ok ⟨out.st, selectRows out.data sigma, out.labels⟩ :=
+  (trainTerm_perm env S.wf S.names sigma S.perm table spec forced isResponse out hne h).1
+
+/-- **One group-specific term** `(expr | factor)`: same state incl. the list of groups and the
+factor's levels, same labels, Khatri-Rao block with rows permuted. -/
+theorem C08_perm_group (env : Env) (sigma : List Nat) (S : Situation env sigma) (table : List (String × Expr))
+    (spec : GroupSpec) (out : GroupOut)
+    (hnf : spec.factor.comps ≠ []) (hne : ∀ ts, spec.expr = some ts → ts.comps ≠ [])
+    (h : trainGroup env table spec = .ok out) :
+    trainGroup (env.rows sigma) table spec = .ok ⟨out.st, selectRows out.data sigma, out.labels⟩ ∧
+      (⟨out.st, selectRows out.data sigma, out.labels⟩ : GroupOut).st.groups = out.st.groups :=
+  ⟨(trainGroup_perm env S.wf S.names sigma S.perm table spec out hnf hne h).1, rfl⟩
+
+/-- every term of the design has a component -/
+def specsOk (common : List (Option TermSpec)) (groups : List GroupSpec) : Prop :=
+  (∀ s, some s ∈ common → s.comps ≠ []) ∧
+  (∀ s ∈ groups, s.factor.comps ≠ [] ∧ ∀ ts, s.expr = some ts → ts.comps ≠ [])
+
+/-- **The common-effects matrix** trained on the permuted frame. -/
+theorem C08_perm_common (env : Env) (sigma : List Nat) (S : Situation env sigma) (table : List (String × Expr))
+    (specs : List (Option TermSpec)) (parts : List (Option TermOut))
+    (hne : ∀ s, some s ∈ specs → s.comps ≠ [])
+    (h : trainCommon env table specs = .ok parts) :
+    trainCommon (env.rows sigma) table specs = .ok (parts.map (permPart sigma)) ∧
+      commonMatrix env.frame.nrows (parts.map (permPart sigma)) =
+        selectRows (commonMatrix env.frame.nrows parts) sigma :=
+  trainCommon_perm env S.wf S.names sigma S.perm table specs parts hne h
+
+/-- **The group-effects matrix** trained on the permuted frame. -/
+theorem C08_perm_groups (env : Env) (sigma : List Nat) (S : Situation env sigma) (table : List (String × Expr))
+    (specs : List GroupSpec) (gs : List GroupOut)
+    (hne : ∀ s ∈ specs, s.factor.comps ≠ [] ∧ ∀ ts, s.expr = some ts → ts.comps ≠ [])
+    (h : trainGroups env table specs = .ok gs) :
+    trainGroups (env.rows sigma) table specs = .ok (gs.map (·.perm sigma)) ∧
+      groupMatrix env.frame.nrows (gs.map (·.perm sigma)) =
+        selectRows (groupMatrix env.frame.nrows gs) sigma :=
+  trainGroups_perm env S.wf S.names sigma S.perm table specs gs hne h
+
+theorem permutedOk_of_eq (base permuted : Matrix) (sigma : List Nat) (h : permuted = selectRows base sigma) :
+    Spec.C08.permutedOk base permuted sigma = true := by
+  subst h; exact rowsEqual_refl _
+
+/-- **C08 (assembled, matrices).** Training the design on the permuted frame succeeds, every term
+keeps its state and labels (`permPart` / `GroupOut.perm` change the data only), and both matrices
+satisfy the specification `Spec.C08.permutedOk` against the base run. -/
+theorem C08_perm (env : Env) (sigma : List Nat) (S : Situation env sigma) (table : List (String × Expr))
+    (common : List (Option TermSpec)) (groups : List GroupSpec)
+    (parts : List (Option TermOut)) (gs : List GroupOut) (hok : specsOk common groups)
+    (hc : trainCommon env table common = .ok parts) (hg : trainGroups env table groups = .ok gs) :
+    ∃ parts' gs',
+      trainCommon (env.rows sigma) table common = .ok parts' ∧
+      trainGroups (env.rows sigma) table groups = .ok gs' ∧
+      parts'.map (Option.map (·.st)) = parts.map (Option.map (·.st)) ∧
+      parts'.map (Option.map (·.labels)) = parts.map (Option.map (·.labels)) ∧
+      gs'.map (·.st) = gs.map (·.st) ∧ gs'.map (·.labels) = gs.map (·.labels) ∧
+      Spec.C08.permutedOk (commonMatrix env.frame.nrows parts) (commonMatrix env.frame.nrows parts') sigma = true ∧
+      Spec.C08.permutedOk (groupMatrix env.frame.nrows gs) (groupMatrix env.frame.nrows gs') sigma = true := by
+  obtain ⟨h1, h2⟩ := C08_perm_common env sigma S table common parts hok.1 hc
+  obtain ⟨h3, h4⟩ := C08_perm_groups env sigma S table groups gs hok.2 hg
+  refine ⟨_, _, h1, h3, ?_, ?_, ?_, ?_, permutedOk_of_eq _ _ _ h2, permutedOk_of_eq _ _ _ h4⟩
+  · rw [List.map_map]; apply List.map_congr_left; intro p _; cases p <;> rfl
+  · rw [List.map_map]; apply List.map_congr_left; intro p _; cases p <;> rfl
+  · rw [List.map_map]; rfl
+  · rw [List.map_map]; rfl
+
+/-! #### slices and labels of the stacked matrices (the objects the driver serialises) -/
+
+/-- a trained design (as the driver keeps it) with every block's rows permuted -/
+def permTrained (sigma : List Nat) (t : Driver.C04.Trained) : Driver.C04.Trained :=
+  ⟨t.response.map (·.perm sigma), t.common.map (fun p => (p.1, permPart sigma p.2)),
+   t.group.map (·.perm sigma)⟩
+
+/-- every block of `t` was produced by training a term / group-specific term on `env` -/
+structure TrainedBy (env : Env) (table : List (String × Expr)) (t : Driver.C04.Trained) : Prop where
+  common : ∀ p ∈ t.common, ∀ o, p.2 = some o →
+    ∃ spec : TermSpec, spec.comps ≠ [] ∧ trainTerm env table spec false false = .ok o
+  group : ∀ g ∈ t.group, ∃ spec : GroupSpec, spec.factor.comps ≠ [] ∧
+    (∀ ts, spec.expr = some ts → ts.comps ≠ []) ∧ trainGroup env table spec = .ok g
+
+/-- training the same specifications on the permuted frame produces exactly `permTrained sigma t` -/
+theorem C08_perm_trained (env : Env) (sigma : List Nat) (S : Situation env sigma) (table : List (String × Expr))
+    (t : Driver.C04.Trained) (ht : TrainedBy env table t) :
+    TrainedBy (env.rows sigma) table (permTrained sigma t) := by
+  constructor
+  · intro p hp o ho
+    simp only [permTrained, List.mem_map] at hp
+    obtain ⟨p0, hp0, rfl⟩ := hp
+    cases hp2 : p0.2 with
+    | none => simp [permPart, hp2] at ho
+    | some o0 =>
+      simp only [permPart, hp2, Option.some.injEq] at ho
+      subst ho
+      obtain ⟨spec, hne, hs⟩ := ht.common p0 hp0 o0 hp2
+      exact ⟨spec, hne, C08_perm_term env sigma S table spec false false o0 hne hs⟩
+  · intro g hg
+    simp only [permTrained, List.mem_map] at hg
+    obtain ⟨g0, hg0, rfl⟩ := hg
+    obtain ⟨spec, h1, h2, hs⟩ := ht.group g0 hg0
+    exact ⟨spec, h1, h2, (C08_perm_group env sigma S table spec g0 h1 h2 hs).1⟩
+
+/-- **C08 (assembled, stacked objects).** For the common and the group matrix as the driver
+builds them (`Driver.C04.commonStack` / `groupStack`): the matrix of the permuted run is the base
+matrix with rows permuted, the slices and the column labels are identical. -/
+theorem C08_perm_stacks (env : Env) (sigma : List Nat) (S : Situation env sigma) (table : List (String × Expr))
+    (t : Driver.C04.Trained) (ht : TrainedBy env table t) :
+    let n := env.frame.nrows
+    let c := Driver.C04.commonStack n t
+    let c' := Driver.C04.commonStack n (permTrained sigma t)
+    let g := Driver.C04.groupStack n t
+    let g' := Driver.C04.groupStack n (permTrained sigma t)
+    c'.matrix = selectRows c.matrix sigma ∧ c'.slices = c.slices ∧ c'.labels = c.labels ∧
+    g'.matrix = selectRows g.matrix sigma ∧ g'.slices = g.slices ∧ g'.labels = g.labels ∧
+    Spec.C08.permutedOk c.matrix c'.matrix sigma = true ∧
+    Spec.C08.permutedOk g.matrix g'.matrix sigma = true := by
+  intro n c c' g g'
+  have hp : IsPerm sigma n := S.perm
+  -- common
+  have hc' : c' = stack n ((t.common.map (fun p =>
+      match p.2 with
+      | none => Driver.C04.interceptPart n
+      | some o => (p.1, o.data, o.labels))).map (permBlock sigma)) := by
+    simp only [c', Driver.C04.commonStack, permTrained, List.map_map]
+    congr 1
+    apply List.map_congr_left
+    intro p _
+    cases hp2 : p.2 with
+    | none =>
+      simp only [Function.comp, permPart, hp2, permBlock, Driver.C04.interceptPart,
+        selectRows_onesCol _ sigma hp.lt, hp.length]
+    | some o => simp only [Function.comp, permPart, hp2, permBlock, TermOut.perm]
+  have hcl : ∀ p ∈ t.common.map (fun p =>
+      match p.2 with
+      | none => Driver.C04.interceptPart n
+      | some o => (p.1, o.data, o.labels)), p.2.1.length = n ∧ ∃ w, Uniform p.2.1 w := by
+    intro q hq
+    simp only [List.mem_map] at hq
+    obtain ⟨p, hp', rfl⟩ := hq
+    cases hp2 : p.2 with
+    | none => exact ⟨by simp [Driver.C04.interceptPart, onesCol], 1, onesCol_uniform n⟩
+    | some o =>
+      obtain ⟨spec, hne, hs⟩ := ht.common p hp' o hp2
+      exact ⟨(trainTerm_perm env S.wf S.names sigma S.perm table spec false false o hne hs).2,
+        trainTerm_uniform _ _ _ _ _ _ hs⟩
+  obtain ⟨c1, c2, c3⟩ := stack_perm n sigma hp _ (fun p h => (hcl p h).1) (fun p h => (hcl p h).2)
+  -- group
+  have hg' : g' = stack n ((t.group.map (fun g => (g.st.name, g.data, g.labels))).map (permBlock sigma)) := by
+    simp only [g', Driver.C04.groupStack, permTrained, List.map_map]
+    rfl
+  have hgl : ∀ p ∈ t.group.map (fun g => (g.st.name, g.data, g.labels)),
+      p.2.1.length = n ∧ ∃ w, Uniform p.2.1 w := by
+    intro q hq
+    simp only [List.mem_map] at hq
+    obtain ⟨g0, hg0, rfl⟩ := hq
+    obtain ⟨spec, h1, h2, hs⟩ := ht.group g0 hg0
+    exact ⟨(trainGroup_perm env S.wf S.names sigma S.perm table spec g0 h1 h2 hs).2,
+      trainGroup_uniform _ _ _ _ hs⟩
+  obtain ⟨g1, g2, g3⟩ := stack_perm n sigma hp _ (fun p h => (hgl p h).1) (fun p h => (hgl p h).2)
+  rw [← hc'] at c1 c2 c3
+  rw [← hg'] at g1 g2 g3
+  exact ⟨c1, c2, c3, g1, g2, g3, permutedOk_of_eq _ _ _ c1, permutedOk_of_eq _ _ _ g1⟩
+
+/-! ### 4b. evaluation reads only the columns it names -/
+
+/-- **Lazy evaluation** (training or prediction mode, errors included) of an expression is the
+same on two frames that agree on the columns `CallVarsExtractor` finds in it. -/
+theorem C08_unused_evalArg (f1 f2 : Frame) (names : List (String × Val)) (e : Expr) (ts : Option TS)
+    (h : ∀ n ∈ NA.argVars e, f1.col? n = f2.col? n) :
+    evalArg ⟨f1, names⟩ e ts = evalArg ⟨f2, names⟩ e ts :=
+  evalArg_agree f1 f2 names e ts h
+
+/-- **One component**: `compNames name e` = the names a component reads (= `var_names` of the
+component, `NA.atomVars e`, whenever `e` is a call or a variable: `compNames_atom`). -/
+theorem C08_unused_comp (f1 f2 : Frame) (names : List (String × Val)) (name : String) (e : Expr)
+    (forced isResponse full : Bool) (hshape : isAtomShape e = true)
+    (h : ∀ n ∈ NA.atomVars e, f1.col? n = f2.col? n) (hrows : f1.nrows = f2.nrows) :
+    trainComp ⟨f1, names⟩ name e forced isResponse full =
+      trainComp ⟨f2, names⟩ name e forced isResponse full :=
+  trainComp_agree f1 f2 names name e forced isResponse full hrows (by rw [compNames_atom _ _ hshape]; exact h)
+
+theorem C08_unused_term (f1 f2 : Frame) (names : List (String × Val)) (table : List (String × Expr))
+    (spec : TermSpec) (forced isResponse : Bool)
+    (h : ∀ n ∈ tableNames table, f1.col? n = f2.col? n) (hrows : f1.nrows = f2.nrows) :
+    trainTerm ⟨f1, names⟩ table spec forced isResponse =
+      trainTerm ⟨f2, names⟩ table spec forced isResponse :=
+  trainTerm_agree f1 f2 names table spec forced isResponse hrows h
+
+theorem C08_unused_group (f1 f2 : Frame) (names : List (String × Val)) (table : List (String × Expr))
+    (spec : GroupSpec)
+    (h : ∀ n ∈ tableNames table, f1.col? n = f2.col? n) (hrows : f1.nrows = f2.nrows) :
+    trainGroup ⟨f1, names⟩ table spec = trainGroup ⟨f2, names⟩ table spec :=
+  trainGroup_agree f1 f2 names table spec hrows h
+
+/-- **C08 (unused columns).** Two frames with the same number of rows that agree on the columns
+read through the component table — whatever else they contain, in whatever order — give the same
+trained terms, hence the same matrices, labels, levels, slices and states (errors included). -/
+theorem C08_unused (f1 f2 : Frame) (names : List (String × Val)) (table : List (String × Expr))
+    (common : List (Option TermSpec)) (groups : List GroupSpec)
+    (h : ∀ n ∈ tableNames table, f1.col? n = f2.col? n) (hrows : f1.nrows = f2.nrows) :
+    trainCommon ⟨f1, names⟩ table common = trainCommon ⟨f2, names⟩ table common ∧
+    trainGroups ⟨f1, names⟩ table groups = trainGroups ⟨f2, names⟩ table groups ∧
+    commonMatrix f1.nrows = commonMatrix f2.nrows ∧ groupMatrix f1.nrows = groupMatrix f2.nrows :=
+  ⟨trainCommon_agree f1 f2 names table common hrows h, trainGroups_agree f1 f2 names table groups hrows h,
+    by rw [hrows], by rw [hrows]⟩
+
+/-- … and for the component table of a formula (`Pipeline.atomTable`, restricted to components
+proper) those columns are among `Model.var_names` of the formula (`NA.formulaVars`): frames that
+agree on `var_names` give equal designs. -/
+theorem C08_unused_formulaVars (formula : Expr) (f1 f2 : Frame) (names : List (String × Val))
+    (common : List (Option TermSpec)) (groups : List GroupSpec)
+    (h : ∀ n ∈ NA.formulaVars formula, f1.col? n = f2.col? n) (hrows : f1.nrows = f2.nrows) :
+    let table := (Pipeline.atomTable formula).filter (fun p => isAtomShape p.2)
+    trainCommon ⟨f1, names⟩ table common = trainCommon ⟨f2, names⟩ table common ∧
+    trainGroups ⟨f1, names⟩ table groups = trainGroups ⟨f2, names⟩ table groups := by
+  intro table
+  have h' : ∀ n ∈ tableNames table, f1.col? n = f2.col? n :=
+    fun n hn => h n (tableNames_formulaVars formula n hn)
+  exact ⟨(C08_unused f1 f2 names table common groups h' hrows).1,
+    (C08_unused f1 f2 names table common groups h' hrows).2.1⟩
+
+/-- columns appended to / put in front of a frame under names the formula does not use change
+nothing (instance of `C08_unused` through `C08_col_lookup_extra`) -/
+theorem C08_extra_columns (f extra : Frame) (names : List (String × Val)) (table : List (String × Expr))
+    (common : List (Option TermSpec)) (groups : List GroupSpec)
+    (hfresh : ∀ c ∈ extra, c.name ∉ tableNames table) (hrows : (f ++ extra).nrows = f.nrows) :
+    trainCommon ⟨f ++ extra, names⟩ table common = trainCommon ⟨f, names⟩ table common ∧
+    trainGroups ⟨f ++ extra, names⟩ table groups = trainGroups ⟨f, names⟩ table groups := by
+  have h : ∀ n ∈ tableNames table, (f ++ extra).col? n = f.col? n := by
+    intro n hn
+    exact (C08_col_lookup_extra f extra n (fun c hc hcn => hfresh c hc (hcn ▸ hn))).1
+  exact ⟨(C08_unused _ _ names table common groups h hrows).1, (C08_unused _ _ names table common groups h hrows).2.1⟩
+
+/-! ### non-vacuity, and the one guard on terms is needed -/
+
+def tk (k : Kind) (s : String) : Token := ⟨k, s⟩
+def var (s : String) : Expr := .variable (tk .IDENTIFIER s)
+def call1 (f : String) (a : Expr) : Expr :=
+  .call (var f) (tk .LEFT_PAREN "(") (.last a) (tk .RIGHT_PAREN ")")
+def call2 (f : String) (a b : Expr) : Expr :=
+  .call (var f) (tk .LEFT_PAREN "(") (.more a (tk .COMMA ",") (.last b)) (tk .RIGHT_PAREN ")")
+def kwarg (k : String) (v : Expr) : Expr := .assign (var k) (tk .EQUAL "=") v
+
+/-- a 3-level factor `f` whose first-seen order is not the sorted order, a numeric `x`, an integer
+`k`, an ordered categorical `co`, a grouping column `g`, and an unused column `junk` with NaN -/
+def exFrame : Frame :=
+  [⟨"f", .string, [.str "c", .str "a", .str "b", .str "a"]⟩,
+   ⟨"x", .numeric false, [.num 1, .num 2, .num 4, .num 5]⟩,
+   ⟨"k", .numeric true, [.num 3, .num 1, .num 2, .num 2]⟩,
+   ⟨"co", .categorical true ["lo", "mid", "hi"], [.str "lo", .str "mid", .str "hi", .str "lo"]⟩,
+   ⟨"g", .string, [.str "v", .str "u", .str "u", .str "v"]⟩,
+   ⟨"junk", .numeric false, [.na, .num 7, .na, .num 9]⟩]
+
+def exEnv : Env := { frame := exFrame, names := [("lv_f", .levels [.s "c", .s "a", .s "b"])] }
+
+/-- a permutation that moves every row and changes which level is seen first -/
+def exSigma : List Nat := [2, 3, 0, 1]
+
+theorem exSituation : Situation exEnv exSigma := ⟨by decide, by decide, by decide⟩
+
+def exTable : List (String × Expr) :=
+  [("center(x)", call1 "center" (var "x")), ("f", var "f"), ("g", var "g"),
+   ("C(f, levels=lv_f)", call2 "C" (var "f") (kwarg "levels" (var "lv_f"))),
+   ("binary(k)", call1 "binary" (var "k")), ("C(co)", call1 "C" (var "co"))]
+
+def exTerm : TermSpec := { name := "center(x):f", comps := [("center(x)", false), ("f", true)] }
+def exGroup : GroupSpec :=
+  { name := "center(x)|g", expr := some { name := "center(x)", comps := [("center(x)", false)] },
+    factor := { name := "g", comps := [("g", true)] } }
+
+def termData (r : M TermOut) : Option Matrix :=
+  match r with
+  | .ok o => some o.data
+  | .error _ => none
+
+def termLabels (r : M TermOut) : Option (List String) :=
+  match r with
+  | .ok o => o.labels
+  | .error _ => none
+
+-- training succeeds on the base frame (so the hypotheses of the theorems are satisfiable) …
+example : termData (trainTerm exEnv exTable exTerm false false) =
+    some [[some 0, some 0, some (-2)], [some (-1), some 0, some 0], [some 0, some 1, some 0],
+          [some 2, some 0, some 0]] := by decide +kernel
+-- … the permuted frame sees level `b` first, still the columns are `a, b, c` and the rows 2,3,0,1 …
+example : termData (trainTerm (exEnv.rows exSigma) exTable exTerm false false) =
+    some [[some 0, some 1, some 0], [some 2, some 0, some 0], [some 0, some 0, some (-2)],
+          [some (-1), some 0, some 0]] := by decide +kernel
+example : termLabels (trainTerm (exEnv.rows exSigma) exTable exTerm false false) =
+    termLabels (trainTerm exEnv exTable exTerm false false) := by decide +kernel
+-- … as the theorems say (instances, incl. the components outside the C06 fragment: explicit
+-- levels, `binary`, an ordered categorical)
+example : ∀ out, trainTerm exEnv exTable exTerm false false = .ok out →
+    trainTerm (exEnv.rows exSigma) exTable exTerm false false =
+      .ok ⟨out.st, selectRows out.data exSigma, out.labels⟩ :=
+  fun out h => C08_perm_term exEnv exSigma exSituation exTable exTerm false false out (by decide) h
+example : ∀ out, trainGroup exEnv exTable exGroup = .ok out →
+    trainGroup (exEnv.rows exSigma) exTable exGroup = .ok ⟨out.st, selectRows out.data exSigma, out.labels⟩ :=
+  fun out h => (C08_perm_group exEnv exSigma exSituation exTable exGroup out (by decide)
+    (by intro ts hts; cases hts; decide) h).1
+example : (match trainComp exEnv "C(f, levels=lv_f)" (call2 "C" (var "f") (kwarg "levels" (var "lv_f")))
+      false false true with
+    | .ok o => some (o.value, o.st.levels)
+    | .error _ => none) =
+    some ([[some 1, some 0, some 0], [some 0, some 1, some 0], [some 0, some 0, some 1], [some 0, some 1, some 0]],
+          [.s "c", .s "a", .s "b"]) := by decide +kernel
+example : (match trainComp exEnv "binary(k)" (call1 "binary" (var "k")) false false false with
+    | .ok o => some o.value
+    | .error _ => none) = some [[some 0], [some 1], [some 0], [some 0]] := by decide +kernel
+example : (match trainComp (exEnv.rows exSigma) "binary(k)" (call1 "binary" (var "k")) false false false with
+    | .ok o => some o.value
+    | .error _ => none) = some [[some 0], [some 0], [some 0], [some 1]] := by decide +kernel
+-- unused columns: dropping `junk` and `co` and reversing the rest changes nothing
+def exFrame2 : Frame :=
+  [⟨"g", .string, [.str "v", .str "u", .str "u", .str "v"]⟩,
+   ⟨"x", .numeric false, [.num 1, .num 2, .num 4, .num 5]⟩,
+   ⟨"f", .string, [.str "c", .str "a", .str "b", .str "a"]⟩]
+example : trainTerm ⟨exFrame, exEnv.names⟩ (exTable.take 3) exTerm false false =
+    trainTerm ⟨exFrame2, exEnv.names⟩ (exTable.take 3) exTerm false false :=
+  C08_unused_term exFrame exFrame2 exEnv.names (exTable.take 3) exTerm false false
+    (by
+      intro n hn
+      have e : tableNames (exTable.take 3) = ["x", "f", "g"] := by decide +kernel
+      rw [e] at hn
+      simp only [List.mem_cons, List.not_mem_nil, or_false] at hn
+      rcases hn with rfl | rfl | rfl <;> rfl)
+    (by decide)
+
+/-- `C08_perm_term` without the guard `spec.comps ≠ []` -/
+def C08_perm_term_Statement : Prop :=
+  ∀ (env : Env) (sigma : List Nat), Situation env sigma →
+  ∀ (table : List (String × Expr)) (spec : TermSpec) (forced isResponse : Bool) (out : TermOut),
+    trainTerm env table spec forced isResponse = .ok out →
+    trainTerm (env.rows sigma) table spec forced isResponse =
+      .ok ⟨out.st, selectRows out.data sigma, out.labels⟩
+
+/-- The guard is needed in the *model* only: the empty product `reduceMatrices []` is the empty
+matrix whatever the frame, so it has no rows to permute.  No such term exists in the library
+(the Intercept is not built through `Term.set_data`; it is `none` in `trainCommon`). -/
+theorem C08_perm_term_counterexample : ¬ C08_perm_term_Statement := by
+  intro hS
+  have h := hS exEnv exSigma exSituation [] ⟨"empty", []⟩ false false
+    ⟨⟨"empty", [], "interaction"⟩, [], some []⟩ rfl
+  have h' : trainTerm (exEnv.rows exSigma) [] ⟨"empty", []⟩ false false =
+      .ok ⟨⟨"empty", [], "interaction"⟩, [], some []⟩ := rfl
+  rw [h'] at h
+  simp only [Except.ok.injEq, TermOut.mk.injEq, true_and, and_true] at h
+  exact absurd h (by decide)
 
 end FormulaeModel.C08
